@@ -139,10 +139,12 @@ pub fn c09_c10(d: &Digest, s: usize, out: &mut Vec<Violation>) {
         }
         // ---- C10
         let SubKind::Channeled { policy, .. } = kind else { continue };
-        let want_name = format!("{}-channeled-subscriber", d.store_name(s));
+        // "its own thread": not the reducer's, not a client's (how the thread is named is the
+        // implementation's business)
         for x in &log {
             let tid = d.ev[x.4].tid;
-            if Some(tid) == sd.rtid || d.tid_name.get(&tid) != Some(&want_name) {
+            let client = d.tid_name.get(&tid).map(|n| n.starts_with("client-") || n == "sim-main").unwrap_or(false);
+            if Some(tid) == sd.rtid || client {
                 v(out, "C10", "own-thread", format!("store {s}: channeled subscriber {sub} was called on thread {:?} ({})", d.tid_name.get(&tid), tid));
                 break;
             }
